@@ -196,3 +196,61 @@ Theorem rebinding_refuted :
     ~ handles_ok st'.
 Proof. exact Lemmas.rebinding_refuted. Qed.
 Print Assumptions rebinding_refuted.
+
+(* ---- Round 6: the link between the translated decorator and the memo of the evaluator.
+   [flat_call] / [flat_hist] (C05.Memo) are the hand model on ONE store: C01.Heap's [memo] list with [mlookup] / [mstore] / [mclear], the store
+   that C01.Model.with_memo and C05.Model.with_memo_e / clear_path use; clear_mask_caches = the empty list (the model's scope 2).
+   [well_keyed]: the key of a call to decorated function f carries f (with_memo_e builds `mkkey f id d v form`).
+
+   For every number of decorated functions and every such history of calls and clears: the per-function stores of the hand model that the
+   translated programs refine return the same results as the one memo, and afterwards EVERY key has the same lookup in the stores put together
+   (their concatenation) as in the memo. *)
+Theorem stores_joined_are_memo : forall n h, well_keyed h ->
+  snd (spec_hist h (repeat [] n)) = snd (flat_hist n h []) /\
+  forall k, mlookup k (concat (fst (spec_hist h (repeat [] n)))) = mlookup k (fst (flat_hist n h [])).
+Proof. exact Lemmas.stores_joined_are_memo. Qed.
+Print Assumptions stores_joined_are_memo.
+
+(* clear_cache on every one of the n decorated functions (what clear_mask_caches does) = mclear of every function: no key of a decorated function
+   is found afterwards -- observationally the empty memo of the model's scope 2. *)
+Theorem clear_fns_all : forall n m k,
+  mlookup k (clear_fns (seq 0 n) m) = if k_fn k <? n then None else mlookup k m.
+Proof. exact Lemmas.clear_fns_all. Qed.
+Print Assumptions clear_fns_all.
+
+(* COROLLARY.  The programs TRANSLATED from glue/core/decorators.py (memoize around n functions, then any well-keyed history through the translated
+   wrapper / clear_cache / clear_mask_caches), run over the heap of dict objects, return exactly the results of the model's one memo, their dicts put
+   together are observationally that memo, and every wrapper consults the dict its handle clears. *)
+Theorem translated_memoize_is_model_memo : forall n h, well_keyed h -> exists st0 st',
+  decorate_all memoize_pre memoize_post n = Some st0 /\
+  run_hist memoize_wrapper clear_cache_body h st0 = Some (st', snd (flat_hist n h [])) /\
+  (forall k, mlookup k (concat (m_dicts st')) = mlookup k (fst (flat_hist n h []))) /\
+  handles_ok st'.
+Proof. exact Lemmas.translated_memoize_is_model_memo. Qed.
+Print Assumptions translated_memoize_is_model_memo.
+
+(* The evaluator's memo behaviour is that of those programs.  evalE touches st_memo through with_memo_e only (at every node), step through
+   clear_path only.  with_memo_e around ANY nested computation is: a hit = one wrapper call that finds the key (nothing computed); otherwise the
+   nested computation followed by ONE wrapper call whose wrapped-function outcome is the computation's (value or exception; unhashable = call
+   through).  Exact side condition: the nested computation did not itself store the key its caller is about to store (a state object is not its own
+   descendant).  So coherent_reachable / stale_free / evalE_good speak about the translated decorator. *)
+Theorem with_memo_e_is_wrapper_call : forall n hk f id d v form compute st, f < n ->
+  let k := mkkey f id d v form in
+  let st' := fst (compute st) in
+  let oa := snd (compute st) in
+  (mlookup k (st_memo st) = None -> mlookup k (st_memo st') = None) ->
+  let out := with_memo_e hk (Some f) id d v form compute st in
+  match (if hk then mlookup k (st_memo st) else None) with
+  | Some a => out = (st, Some a) /\ forall ores, flat_call n f (mkcall false hk k ores) (st_memo st) = (st_memo st, RVal a)
+  | None => st_heap (fst out) = st_heap st' /\ snd out = oa /\
+            flat_call n f (mkcall false hk k oa) (st_memo st') = (st_memo (fst out), res_of (snd out))
+  end.
+Proof. exact Lemmas.with_memo_e_is_wrapper_call. Qed.
+Print Assumptions with_memo_e_is_wrapper_call.
+
+(* clear_path under any policy is a history of clear_cache(f) calls (scopes 0 / 1) or one clear_mask_caches() (scope 2) on the memo; the heap is untouched. *)
+Theorem clear_path_is_clear_cache : forall n pol p tops reach st,
+  st_heap (clear_path pol p tops reach st) = st_heap st /\
+  st_memo (clear_path pol p tops reach st) = fst (flat_hist n (clear_hops pol p tops reach) (st_memo st)).
+Proof. exact Lemmas.clear_path_is_clear_cache. Qed.
+Print Assumptions clear_path_is_clear_cache.
